@@ -132,7 +132,7 @@ def generate(seed, tier):
     for _ in range(g.randint(2, 12)):
         gr = None if kind == "graph" else g.choice([None, None, 0, 1, 2])
         quads.append([g.pick(subs), g.pick(preds), g.pick(objs), gr])
-    cfg = {"kind": kind, "names": names, "quads": quads, "list": g.chance(0.5), "empty_graph": g.chance(0.5) and kind != "graph", "remove_one": g.chance(0.3)}
+    cfg = {"kind": kind, "names": names, "quads": quads, "list": g.chance(0.5), "empty_graph": g.chance(0.5) and kind != "graph", "remove_one": g.chance(0.3), "subscriber": g.chance(0.15)}
     ops = []
     nlazy = 0
     live = []
@@ -146,7 +146,7 @@ def generate(seed, tier):
                 live.remove(r)
             ops.append(op)
             continue
-        kindop = g.weighted([("ser", 4), ("query", 5), ("misc", 5), ("resser", 1)])
+        kindop = g.weighted([("ser", 4), ("query", 5), ("misc", 5), ("resser", 1), ("write", 0.7)])
         op = {"uid": uid, "k": kindop, "twice": g.chance(0.6)}
         if kindop == "ser":
             op["format"] = g.pick(GFORMATS)
@@ -177,6 +177,12 @@ def generate(seed, tier):
                 op["r"] = nlazy
                 live.append(nlazy)
                 op["twice"] = False
+        elif kindop == "write":
+            # not a read: one triple (often one that another graph already holds) is added to one graph, and the dataset afterwards
+            # must be the dataset before plus exactly that quad - whatever was read before
+            op["twice"] = False
+            op["t"] = list(g.pick(quads)[:3]) if g.chance(0.7) else [g.pick(subs), g.pick(preds), g.pick(objs)]
+            op["g"] = g.choice([None, 0, 1, 2])
         else:
             op["q"] = g.choice([0, 1, 3, 4, 10, 14])
             op["format"] = g.pick(RFORMATS)
@@ -219,6 +225,8 @@ def execute(trace, ctx):
     kind = cfg["kind"]
     names = cfg["names"]
     store = Memory()
+    if cfg.get("subscriber"):
+        kernel.counting_subscriber(store, ctx)
     if kind == "graph":
         top = Graph(store, URIRef(EX + "thegraph"))
     elif kind.startswith("dataset"):
@@ -585,6 +593,32 @@ def execute(trace, ctx):
                         ctx.log("lazy-raised", type(e).__name__)
                 conserve(where, op)
                 ctx.log(k, f"r{op['r']}")
+                continue
+            if k == "write":
+                gi = op["g"] if kind != "graph" else None
+                tgt = gid(gi)
+                Graph(store, tgt).add((T(op["t"][0]), T(op["t"][1]), T(op["t"][2])))
+                q2, c2 = observe(store)
+                newq = (key(T(op["t"][0])), key(T(op["t"][1])), key(T(op["t"][2])), key(tgt))
+                ctx.check(
+                    q2 == before_q | {newq} and c2 == before_c | {key(tgt)},
+                    "C13.write-after-reads",
+                    lambda: f"{where}: after the reads so far, adding {newq} changed more than that quad: unexpected={_srt(q2 - before_q - {newq})} lost={_srt(before_q - q2)} graphs new={_srt(c2 - before_c - {key(tgt)})}",
+                )
+                if kind != "graph":
+                    # the other views of the same state: quads() and membership per graph
+                    viaq = {(key(s_), key(p_), key(o_), key(c_.identifier)) for s_, p_, o_, c_ in ConjunctiveGraph(store).quads((None, None, None))}
+                    ctx.check(viaq == q2, "C13.write-after-reads", lambda: f"{where}: after adding {newq}, quads() lists unexpected={_srt(viaq - q2)} missing={_srt(q2 - viaq)}")
+                    trips = {q[:3]: None for q in q2}
+                    for ck in c2:
+                        gview = Graph(store, T(list(ck)))
+                        for (s_, p_, o_, c_) in q2:
+                            tt_ = (T(list(s_)), T(list(p_)), T(list(o_)))
+                            inn = tt_ in gview
+                            ctx.check(inn == ((s_, p_, o_, ck) in q2), "C13.write-after-reads", lambda: f"{where}: after adding {newq}, ({s_}, {p_}, {o_}) in graph {ck} -> {inn}")
+                before_q, before_c = q2, c2
+                ctx.probe("write-after-reads")
+                ctx.log(k, str(newq))
                 continue
             if lazies:
                 ctx.probe("lazy-reader-left-open-across-reads")
